@@ -143,6 +143,8 @@ def replay(case):
             return []
         if m == 'rgb':
             mats = [np.array(x, dtype=float) for x in exp['mats']]
+            for a_ in mats:
+                a_.setflags(write=False)          # the caller's matrices are read-only
             f = np.asarray(mdl.rgb_fractal(mats[0], mats[1], mats[2], cfg['level']))
             want = carray(exp['dense']['v']).real.reshape(exp['dense']['rd'])
             if list(f.shape) != list(want.shape) or np.max(np.abs(f - want)) > 1e-12:
